@@ -136,6 +136,8 @@ def mutants(args):
     if not want:
         with open(os.path.join(VERIF, 'mutants', 'last_run.json'), 'w') as f:
             json.dump(detail, f, indent=1, sort_keys=True)
-    missed = [m for m, ok in res if ok is False]
+    # a mutant whose anchor text no longer occurs in the tree (the code was repaired or restructured) is a hole in the
+    # self-test, not a pass: it counts as missed until it is re-anchored
+    missed = [m for m, ok in res if ok is False or ok == 'anchor']
     print('mutants: %d caught, %d missed %s' % (len([1 for m, ok in res if ok is True]), len(missed), missed))
     return 1 if missed else 0
